@@ -18,7 +18,7 @@ META = {
                  "feature:set_indexed_outputs", "feature:extend", "feature:rebinding-to-other-port",
                  "feature:command-object-reused", "feature:node-handle-as-wire", "feature:repeated-index",
                  "feature:set_indexed_outputs-untracked-index", "feature:add-index-names-freed-hole",
-                 "feature:plain-side-through-add"],
+                 "feature:plain-side-through-add", "feature:set_tracked_outputs-without-live-index"],
     "reach": ["hugr.build.tracked_dfg:TrackedDfg.add", "hugr.build.tracked_dfg:TrackedDfg.tracked_wire",
               "hugr.build.tracked_dfg:TrackedDfg.untrack_wire", "hugr.build.tracked_dfg:TrackedDfg.set_tracked_outputs"],
     "assumptions": ["non-negative indices only (negative indexing into the tracked list is not part of the statement)",
@@ -144,6 +144,13 @@ def gen_script(r, max_steps):
                         sc["steps"].append(["untrack", a])
                         tracked[a] = None
     if r.random() < 0.5:
+        if r.random() < 0.2:
+            # every index given up first: the outputs set from tracked indices are the empty row
+            for i, x in enumerate(tracked):
+                if x is not None:
+                    sc["steps"].append(["untrack", i])
+                    tracked[i] = None
+            sc["no_live_index"] = True
         sc["steps"].append(["set_tracked_outputs"])
     else:
         outs = []
@@ -378,6 +385,8 @@ def run_script(ctx, sc, stratum="script"):
                         break
         elif k == "set_tracked_outputs":
             ctx.feat("feature:set_tracked_outputs")
+            if not any(m is not None for m in model):
+                ctx.feat("feature:set_tracked_outputs-without-live-index")
             td.set_tracked_outputs()
             pd.set_outputs(*[W[m][1] for m in model if m is not None])
         elif k == "set_indexed_outputs":
@@ -399,12 +408,20 @@ def run_script(ctx, sc, stratum="script"):
                 return info  # outputs not set on either side: nothing more to compare
         check_tracked(si)
     ctx.count("monitor:hugr-equality")
-    try:
-        a, b = observe(td.hugr), observe(pd.hugr)
-    except Exception as e:  # noqa: BLE001
-        if type(e).__name__ == "IncompleteOp":
-            return info
-        raise
+    def obs_(hg):
+        try:
+            return observe(hg)
+        except Exception as e:  # noqa: BLE001
+            if type(e).__name__ == "IncompleteOp":
+                return None     # (outputs never set: the root operation is still incomplete)
+            raise
+
+    a, b = obs_(td.hugr), obs_(pd.hugr)
+    if a is None or b is None:
+        if (a is None) != (b is None):
+            bad("hugr-differs[one side incomplete]", "root operation", "complete on both sides or on neither",
+                {"tracked": "incomplete" if a is None else "complete", "explicit": "incomplete" if b is None else "complete"})
+        return info
     paths = diff(b, a)
     for m in sorted({generic_path(p) for p, _, _ in paths}):
         ex = [p for p in paths if generic_path(p[0]) == m][0]
